@@ -117,7 +117,36 @@ def check(name, allrules=True):
         shutil.rmtree(d, ignore_errors=True)
 
 
+def e2e(name):
+    """Run the registered quick command of the seed's own property against the patched tree (evidence redirected)."""
+    import tempfile
+    from circlint import selftest
+    dst = os.path.join(HERE, "seeded", name)
+    prop = json.load(open(os.path.join(dst, "meta.json")))["property"]
+    d = selftest.make_scratch("/repo")
+    ev = tempfile.mkdtemp(prefix="circ-ev-")
+    try:
+        r = subprocess.run(["patch", "-p1", "-s", "-i", os.path.join(dst, "patch.diff")], cwd=d, capture_output=True, text=True)
+        assert r.returncode == 0, r.stdout
+        env = dict(os.environ, CIRC_EVIDENCE_DIR=ev)
+        r = subprocess.run([os.path.join(HERE, "check"), prop, "--tier", "quick", "--repo", d], cwd=HERE, env=env,
+                           capture_output=True, text=True)
+        v = [l for l in r.stdout.splitlines() if l.startswith("VIOLATION")]
+        print("%-10s %s exit=%d violations=%d %s" % (name, prop, r.returncode, len(v),
+                                                     [l for l in r.stdout.splitlines() if l.startswith("  rule=")][:2]))
+        return r.returncode
+    finally:
+        shutil.rmtree(d, ignore_errors=True)
+        shutil.rmtree(ev, ignore_errors=True)
+
+
 if __name__ == "__main__":
+    if sys.argv[1] == "e2e":
+        rc = 0
+        for n in sys.argv[2:] or sorted(os.listdir(os.path.join(HERE, "seeded"))):
+            if e2e(n) != 1:
+                rc = 1
+        sys.exit(rc)
     if sys.argv[1] == "confirm":
         confirm(sys.argv[2], sys.argv[3], sys.argv[4])
     elif sys.argv[1] == "check":
